@@ -50,9 +50,9 @@ BuildsVecs(z) ==
         b \in (IF Big THEN Builds(0) ELSE NearBuilds(0)), extra \in {{}, {File(2, B0, 1, BuildToks)}, {File(2, B2, 1, BuildToks)}}}
 
 (* several files per build and week: sums                                     *)
-Kinds(z) == {[id |-> i * 1000 + w * 100 + cv * 10 + sv, build |-> (IF i = 1 THEN B0 ELSE B2), week |-> w,
+Kinds(z) == {[id |-> i * 1000 + w * 100 + cv * 10 + sv, build |-> (IF i = 1 THEN B0 ELSE B2), week |-> w, expired |-> TRUE,
            counts |-> (IF cv = 0 THEN {} ELSE {[n |-> "c", v |-> cv]}) \cup (IF sv = 0 THEN {} ELSE {[n |-> "s\nf1\nf2", v |-> sv]})] :
-            i \in {1, 2}, w \in {1, 2}, cv \in {0, 1, 5}, sv \in {0, 1, 5}}
+            i \in {1, 2}, w \in {1, 2}, cv \in {0, 1, 5}, sv \in (IF Big THEN {0, 1, 5} ELSE {0, 5})}
 Twice(k) == {k, [k EXCEPT !.id = k.id + 5000]}
 SumsCfg == Cfg({Prog(P1, {V1}, {E("c", D)}, {E("s", D)}), Prog(P2, {V2}, {E("c", D)}, {})}, D)
 FileSets(z) == {{a, b} : a, b \in Kinds(0)} \cup {Twice(k) : k \in Kinds(0)}
@@ -71,6 +71,34 @@ Entries(z) ==
     \cup {Entry(b, cs, ss) : b \in {B0, B2}, cs \in CSets, ss \in SSets}
 BaseEntries == {Entry(B0, {"c", "c:b"}, {"s\nf1\nf2"}), Entry(B2, {"d"}, {})}
 ServerVecs(z) == {[fam |-> "server", cfg |-> SrvCfg, rep |-> {e} \cup more] : e \in Entries(0), more \in {{}} \cup {{b} : b \in BaseEntries}}
+
+(* Files that are still active (their end lies after the start of the run)    *)
+(* next to expired ones: they are folded into no report.                       *)
+Active(f) == [f EXCEPT !.expired = FALSE]
+ActiveVecs(z) ==
+    {V("active", SumsCfg, fs, D \div 2) : fs \in
+        {{File(1, B0, 1, {"c", "s\nf1\nf2"}), Active(File(2, B0, 1, {"c", "d", "s\ng1"}))},      \* same build and "week": not added to the sum
+         {Active(File(2, B0, 1, {"c", "s\nf1\nf2"}))},                                           \* nothing expired: nothing to report
+         {File(1, B2, 1, {"c"}), Active(File(2, B0, 1, {"c", "s\nf1\nf2"}))},                     \* an active file of another approved build
+         {File(1, B0, 1, {"c"}), File(3, B0, 2, {"c"}), Active(File(2, B0, 2, {"c"})), Active(File(4, B2, 3, {"c"}))}}}
+
+(* Empty lists and empty strings: a configuration without programs, a program  *)
+(* without versions / without counters, empty GOOS / GOARCH / GoVersion lists, *)
+(* the empty string as a program path or version (metadata line without value) *)
+ECfg(goos, goarch, gover, progs) == [goos |-> goos, goarch |-> goarch, gover |-> gover, sample |-> D, progs |-> progs]
+EP(vs) == Prog(P1, vs, {E("c", D)}, {E("s", D)})
+EmptyCfgs == {ECfg({"linux"}, {"amd64"}, {G1}, {}),
+              ECfg({"linux"}, {"amd64"}, {G1}, {EP({})}),
+              ECfg({"linux"}, {"amd64"}, {}, {EP({V1})}),
+              ECfg({}, {"amd64"}, {G1}, {EP({V1})}),
+              ECfg({"linux"}, {}, {G1}, {EP({V1})}),
+              ECfg({"linux"}, {"amd64"}, {G1}, {Prog(P1, {V1}, {}, {})}),
+              ECfg({"linux", ""}, {"amd64"}, {G1}, {EP({V1, ""}), Prog("", {V1}, {E("c", D)}, {})})}
+EmptyBuilds == {B0, [B0 EXCEPT !.version = ""], [B0 EXCEPT !.program = ""], [B0 EXCEPT !.goos = ""], [B0 EXCEPT !.gover = ""]}
+EmptyVecs(z) == {V("empty", c, {File(1, b, 1, {"c", "s\nf1\nf2"})}, D \div 2) : c \in EmptyCfgs, b \in EmptyBuilds}
+EmptyServerVecs(z) ==
+    {[fam |-> "server", cfg |-> c, rep |-> r] : c \in EmptyCfgs,
+        r \in {{}} \cup {{[build |-> b, counters |-> cs, stacks |-> {}]} : b \in EmptyBuilds, cs \in {{}, {"c"}}}}
 
 (* Nested program paths.  Package paths and counter names both contain "/":   *)
 (* program P = example.com/tools lists counters and stacks named gopls/<name>, *)
@@ -112,13 +140,16 @@ VecSet == CASE Family = "names"  -> NamesVecs(0)
             [] Family = "sums"   -> SumsVecs(0)
             [] Family = "server" -> ServerVecs(0)
             [] Family = "nested" -> NestedVecs(0) \cup NestedServerVecs(0)
+            [] Family = "edge"   -> ActiveVecs(0) \cup EmptyVecs(0) \cup EmptyServerVecs(0)
             [] Family = "c11"    -> NamesVecs(0) \cup BuildsVecs(0) \cup ServerVecs(0) \cup NestedVecs(0) \cup NestedServerVecs(0)
+                                    \cup ActiveVecs(0) \cup EmptyVecs(0) \cup EmptyServerVecs(0)
             [] Family = "c01"    -> NamesVecs(0) \cup RatesVecs(0) \cup SharedVecs(0) \cup BuildsVecs(0) \cup SumsVecs(0) \cup NestedVecs(0)
+                                    \cup ActiveVecs(0) \cup EmptyVecs(0)
 IsSrv(v) == v.fam = "server"
 Vecs == {v \in VecSet : IF IsSrv(v) THEN ConfigOK(CCfg(v.cfg), D) ELSE InDomain(v)}
 
 (* ---- expected outputs -------------------------------------------------------------*)
-Weeks(v) == {f.week : f \in v.files}
+Weeks(v) == {f.week : f \in {f \in v.files : f.expired}}
 CRep(rep) == {[build |-> e.build, counters |-> {NameOf[n] : n \in e.counters}, stacks |-> {NameOf[n] : n \in e.stacks}] : e \in rep}
 SrvOut(v) == [fam |-> v.fam, cfg |-> v.cfg, rep |-> v.rep, d |-> D, accept |-> ServerAccepts(CCfg(v.cfg), CRep(v.rep))]
 (* The harness makes the successive random draws of one uploader run return   *)
@@ -129,11 +160,16 @@ SrvOut(v) == [fam |-> v.fam, cfg |-> v.cfg, rep |-> v.rep, d |-> D, accept |-> S
 (* carrying another is not what UploadReport demands for the X it carries.     *)
 AltX(x) == (x + D \div 2) % D
 XSeq(x) == <<x, AltX(x)>>
+(* Counter values are 64-bit; TLC's integers are not.  Sums are linear, so a   *)
+(* vector of the sums family is also run with every value multiplied by       *)
+(* 2^scale (the harness multiplies the demanded values as well).               *)
+Scales == <<0, 20, 40, 58>>
+ScaleOf(v) == IF v.fam = "sums" THEN Scales[((CHOOSE f \in v.files : \A g \in v.files : f.id >= g.id).id % 4) + 1] ELSE 0
 Out(v) ==
     IF IsSrv(v) THEN SrvOut(v) ELSE
     LET cfg == CCfg(v.cfg)  files == CFiles(v.files) IN
     [fam |-> v.fam, cfg |-> v.cfg, files |-> v.files, x |-> v.x, d |-> D,
-     xs |-> XSeq(v.x),
+     xs |-> XSeq(v.x), scale |-> ScaleOf(v),
      weeks |-> {WeekOut(cfg, files, w, x) : w \in Weeks(v), x \in Rng(XSeq(v.x))},
      viewer |-> {[id |-> f.id,
                   setx |-> ViewerSetExcluded(cfg, f.build),
